@@ -78,10 +78,15 @@ def run_c11(cfg: HCfg, c: Ctx) -> Any:
     desc, anc = closure(labels, deps)
     is_setup = {l: bool(c.choose(2, "setup")) for l in labels}
     # a dependency-free node takes the DAG input, a constant, or nothing at all (then it is a root of the id graph)
+    flag_of: Dict[str, str] = {}  # node -> source of its twz_active flag ("IN" = the DAG input, else a node label)
     if cfg.length == 0:
         # build-validation only: every combination
         root_kind = {l: (("input", "const", "none")[c.choose(3, "rootkind")] if not deps[l] else None) for l in labels}
         lead_const = bool(c.choose(2, "lead_const"))  # nodes with dependencies also take a constant first
+        pairs = [("IN", l) for l in labels] + [(labels[j], labels[i]) for i in range(N) for j in range(i)]
+        k = c.choose(len(pairs) + 1, "flag")
+        if k:
+            flag_of[pairs[k - 1][1]] = pairs[k - 1][0]
     else:
         pattern = ("const", "none", "input-for-non-setup")[c.choose(3, "rootpattern")]
         root_kind = {l: (None if deps[l] else (pattern if pattern != "input-for-non-setup" else ("const" if is_setup[l] else "input"))) for l in labels}
@@ -96,12 +101,17 @@ def run_c11(cfg: HCfg, c: Ctx) -> Any:
     returns_none = bool(is_setup[labels[0]] and c.choose(2, "returns_none"))  # the first setup node returns None
     hist = [OPS[c.choose(len(OPS), "op")] for _ in range(cfg.length)]
     c.heavy()
-    invalid = any(is_setup[l] and (takes_input[l] or any(not is_setup[d] for d in deps[l])) for l in labels)
+    invalid = any(is_setup[l] and (takes_input[l] or any(not is_setup[d] for d in deps[l])
+                                   or flag_of.get(l) == "IN" or (l in flag_of and flag_of[l] != "IN" and not is_setup[flag_of[l]]))
+                  for l in labels)
     cnt = InstCounter()
+    idents: List[Tuple[str, int]] = []
+    import threading
 
     def make(l: str) -> Any:
         def fn(*args):  # type: ignore[no-untyped-def]
             g = cnt.hit(l)
+            idents.append((l, threading.get_ident()))
             parts = [lift(a) for a in args]
             if is_setup[l]:
                 parts.append(lift(g))  # generation stamp: a second execution would produce a different value
@@ -122,11 +132,14 @@ def run_c11(cfg: HCfg, c: Ctx) -> Any:
     def pipe(x):  # type: ignore[no-untyped-def]
         r: Dict[str, Any] = {}
         for l in labels:
-            r[l] = xns[l](*args_of(l, x, r))
+            kw = {}
+            if l in flag_of:
+                kw["twz_active"] = x if flag_of[l] == "IN" else r[flag_of[l]]
+            r[l] = xns[l](*args_of(l, x, r), **kw)
         return tuple(r[l] for l in labels)
 
     pipe.__qualname__ = pipe.__name__ = "pipe"
-    data: Dict[str, Any] = {"deps": deps, "setup": is_setup, "root_kind": root_kind, "lead_const": lead_const, "takes_input": takes_input, "history": hist, "flavour": flavour, "returns_none": returns_none}
+    data: Dict[str, Any] = {"deps": deps, "setup": is_setup, "root_kind": root_kind, "lead_const": lead_const, "flag_of": flag_of, "takes_input": takes_input, "history": hist, "flavour": flavour, "returns_none": returns_none}
     try:
         d = dag(pipe, is_async=(flavour == "a"))
         built = True
@@ -197,6 +210,10 @@ def run_c11(cfg: HCfg, c: Ctx) -> Any:
                 asyncio.run(w())
             out = None
         entered = list(cnt.op_entered)
+        # the nodes use the main-thread resource: they run on the thread that invoked the operation
+        wrong = [l for l, t in idents if t != threading.get_ident()]
+        c.check(not wrong, "main-thread nodes %s ran on another thread than the one that invoked %s" % (wrong, op), prop="C11", data={**data, "step": step, "op": op})
+        idents.clear()
         want_setup_run = [l for l in setups if l in sel and l not in before_done]
         want_run = sorted(want_setup_run + ([l for l in labels if not is_setup[l] and l in sel] if name not in ("setup", "setupRT") else []))
         d2 = {**data, "step": step, "op": op, "entered": entered, "done_before": sorted(before_done)}
@@ -413,13 +430,17 @@ def run_c18(cfg: HCfg, c: Ctx) -> Any:
     restart_on_copy = bool(c.choose(2, "restart_on_copy"))
     second_round = bool(cfg.length >= 4 and c.choose(2, "second_round"))
     sel2 = sels[c.choose(len(sels), "sel2")] if second_round else None
+    none_node = labels[c.choose(N, "returns_none")] if c.choose(2, "has_none_node") else None  # a node whose result is None
     c.heavy()
     entered: List[str] = []
+
+    def value_of(l: str, args: Any) -> Any:
+        return None if l == none_node else SymVal(vapp("f_" + l, [lift(a) for a in args]))
 
     def make(l: str) -> Any:
         def fn(*args):  # type: ignore[no-untyped-def]
             entered.append(l)
-            return SymVal(vapp("f_" + l, [lift(a) for a in args]))
+            return value_of(l, args)
 
         fn.__name__ = fn.__qualname__ = l
         return fn
@@ -510,7 +531,7 @@ def run_c18(cfg: HCfg, c: Ctx) -> Any:
                     val[l] = content[l]
                 elif l in rset or (setup_done_on_target and l == labels[0]):
                     args = ([X2] if takes_input[l] else ([7] if not deps[l] else [])) + [val[dep] for dep in deps[l]]
-                    val[l] = SymVal(vapp("f_" + l, [lift(a) for a in args]))
+                    val[l] = value_of(l, args)
                 else:
                     val[l] = None
             c.check(veq(out2, tuple(val[l] for l in labels)), "restart returned values that are not the cached results / not computed from them", prop="C18",
